@@ -1,0 +1,17 @@
+//go:build verif
+
+package types
+
+// Assumed contracts on the staking keeper behind layer's StakingKeeper interface, read by /verif/bin/govc.
+// Comment-only: compiled only with -tags verif and adds no code. These are assumptions about the Cosmos SDK
+// staking module (never verified here); every one is listed as such in the evidence of the checks that use it.
+
+//@ func (sk StakingKeeper).GetUnbondingDelegation(ctx, delAddr, valAddr) (ubd, err)
+//@ trusted
+//@ ensures [entry_balances_non_negative] err == nil ==> forall j in [0, len(ubd.Entries)) :: ubd.Entries[j].Balance >= 0
+
+//@ func (sk StakingKeeper).SetUnbondingDelegation(ctx, ubd) (err)
+//@ trusted
+
+//@ func (sk StakingKeeper).RemoveUnbondingDelegation(ctx, ubd) (err)
+//@ trusted
